@@ -127,8 +127,23 @@ def gen_cfg(r, tier, idx):
                 longargs=(backend in ('dir', 'bare_dir', 'file') and keymap == 'string' and (blk // 5) % 2 == 1))
 
 
+def compaction_sweep(r, cfg):
+    """lru keeps a queue of recorded uses and compacts it when it exceeds 10*maxsize entries; whether the compaction coincides with
+    the last hit before a miss depends on the queue length at that moment, so the length of the hit run is swept"""
+    ms, nk = cfg['maxsize'], cfg['nkeys']
+    ops = []
+    for it, k in enumerate(range(10 * ms - 5, 10 * ms + 4)):
+        S = [(it + j) % nk for j in range(ms)]
+        c = (it + ms + r.randrange(max(1, nk - ms))) % nk
+        ops += [['call', x] for x in S] + [['call', S[0]]] * k + [['call', S[-1]], ['call', c]]
+        if r.random() < 0.3: ops.append(['call', r.choice(S)])
+    return ops
+
+
 def gen_ops(r, cfg):
     ops = _gen_ops(r, cfg)
+    if cfg['algo'] == 'lru' and cfg['maxsize'] in (2, 3) and cfg['nkeys'] > cfg['maxsize'] and not cfg['malformed'] and r.random() < 0.6:
+        ops = ops[:len(ops) // 3] + compaction_sweep(r, cfg) + ops[len(ops) // 3:][:40]
     if cfg.get('late_attach'):
         ops.insert(min(len(ops), r.randrange(0, 4)), ['setarch', 'dict', []])
     return ops
